@@ -23,7 +23,8 @@ CONFIGS = {
               "rustflags": "-C no-vectorize-loops -C llvm-args=-unroll-threshold=0 "
                            "-C llvm-args=-unroll-allow-partial=false "
                            "-C llvm-args=-unroll-runtime=false "
-                           "-C llvm-args=-unroll-allow-peeling=false"},
+                           "-C llvm-args=-unroll-allow-peeling=false "
+                           "-C llvm-args=-replexitval=never"},
 }
 
 WRAPPER = os.path.join(C.VERIF, "tools", "emit_wrapper.sh")
@@ -164,7 +165,7 @@ def build(cfg, crates, max_retries=4):
             t0 = time.time()
             C.log("[build:%s] cargo build of %d crate(s), %d roots (attempt %d) ..." % (
                 cfg, len(todo), sum(len(cr.roots) - len(dropped[cr.name]) for cr in todo), attempt + 1))
-            p = C.run(["cargo", "build", "--release", "--offline", "--message-format=json",
+            p = C.run(["cargo", "build", "--release", "--offline", "--message-format=json", "--keep-going",
                        "-j", str(os.cpu_count() or 8)],
                       cwd=ws, env=env, check=False)
             C.log("[build:%s] cargo finished in %.1fs (exit %d)" % (cfg, time.time() - t0, p.returncode))
@@ -175,16 +176,21 @@ def build(cfg, crates, max_retries=4):
                 C.log(p.stderr[-6000:])
                 raise RuntimeError("harness build failed (cfg=%s) and no root could be blamed" % cfg)
         tdeps = os.path.join(_target_dir(cfg), "release", "deps")
+        missing = [cr for cr in todo if not os.path.isfile(os.path.join(tdeps, cr.name + ".ll"))]
+        if missing:
+            # cargo considered the crate fresh but its IR is gone: force a rebuild
+            for cr in missing:
+                os.utime(os.path.join(cdir, cr.name, "src", "lib.rs"), None)
+            C.log("[build:%s] rebuilding %d crate(s) whose IR is missing" % (cfg, len(missing)))
+            C.run(["cargo", "build", "--release", "--offline", "--keep-going", "-j", str(os.cpu_count() or 8)],
+                  cwd=ws, env=env)
         for cr in todo:
-            cands = [f for f in os.listdir(tdeps) if re.match(r"^%s(-[0-9a-f]+)?\.ll$" % re.escape(cr.name), f)]
-            if not cands:
+            src = os.path.join(tdeps, cr.name + ".ll")
+            if not os.path.isfile(src):
                 raise RuntimeError("no .ll produced for " + cr.name)
-            cands.sort(key=lambda f: os.path.getmtime(os.path.join(tdeps, f)), reverse=True)
             dst = ll_path(cfg, cr.name)
             os.makedirs(os.path.dirname(dst), exist_ok=True)
-            shutil.move(os.path.join(tdeps, cands[0]), dst)
-            for f in cands[1:]:
-                os.unlink(os.path.join(tdeps, f))
+            shutil.copyfile(src, dst)
             C.save_json(meta_path(cfg, cr.name), {"dropped": dropped[cr.name]})
             C.write_stamp(dst, cr.stamp)
             res[cr.name] = {"ll": dst, "dropped": dropped[cr.name]}
